@@ -42,7 +42,7 @@ MAX_PATH = 40
 
 
 def budget(tier):
-    return {"examples": 500 if tier == "quick" else 20000, "steps": 25}
+    return {"examples": 1600 if tier == "quick" else 40000, "steps": 25}
 
 
 # ------------------------------------------------------------------------- enumeration
